@@ -1043,3 +1043,20 @@ Proof.
     + congruence.
     + congruence.
 Qed.
+
+(** [crash_atomic] with the two instants made one: when only one of the two
+    components changed between them *)
+Theorem crash_atomic_instant : forall tr s y, snap_run Repaired tr = Some s -> s_live s = DFile y ->
+  exists i j si sj, wstart s <= i /\ i <= j /\ j <= length tr /\
+    snap_run Repaired (firstn i tr) = Some si /\ snap_run Repaired (firstn j tr) = Some sj /\
+    ((forall t c, i <= t < j -> ~ changed_at tr t c ChSet) -> y = s_cfg sj) /\
+    ((forall t c, i <= t < j -> ~ changed_at tr t c ChObj) -> y = s_cfg si).
+Proof.
+  intros tr s y Hrun Hy. pose proof (crash_atomic tr s Hrun) as H. rewrite Hy in H.
+  destruct H as [_ [i [j [si [sj [H1 [H2 [H3 [H4 [H5 H6]]]]]]]]]].
+  exists i, j, si, sj. repeat split; auto.
+  - intro Hn. assert (E : same ChSet (s_cfg si) (s_cfg sj)) by (apply (stable_between Repaired tr i j si sj ChSet); auto).
+    cbn in E. rewrite H6. apply cfg_eta; cbn; congruence.
+  - intro Hn. assert (E : same ChObj (s_cfg si) (s_cfg sj)) by (apply (stable_between Repaired tr i j si sj ChObj); auto).
+    cbn in E. rewrite H6. apply cfg_eta; cbn; congruence.
+Qed.
